@@ -269,13 +269,18 @@ def apiCall := apiCallJ true
     nested call's error on WRAPPED (fmt.Errorf %w, errors.Join, both nested, or returned from a reflected func): a
     wrapper is still uncatchable (isUncatchableException uses errors.As) and errors.As still reaches the value, so
     for the model they are plain propagating frames. -/
-def nKinds : Nat := 19
+def nKinds : Nat := 21
 
 def kindAttrs (kind : Nat) : Bool × Bool × Bool :=
   match kind % nKinds with
   | 3 => (true, false, false)
   | 6 => (false, true, true)
   | 7 => (false, true, true)
+  -- 19/20: a Go function calls Error()/String() on the *Exception a callback threw; the thrown object's toString() is the
+  -- body.  Exception.valueString (runtime.go) recovers an uncatchable raised in there and, NESTED (call stack not
+  -- empty), does nothing else: the flag stays set and the outer run loop raises at its next poll.
+  | 19 => (false, true, true)
+  | 20 => (false, true, true)
   | _ => (false, false, false)
 
 /-- OLD mechanism (before fix e8f901b), kept only for the regression lemmas `…_prefix_witness`: a generator frame
